@@ -39,8 +39,8 @@ def check_accessor_purity(ck: Checker, prog: Program, cls: Class, rule: str, flo
     eng = engine(prog)
     n = 0
     for name, m in sorted(cls.methods.items()):
-        if name in NON_ACCESSORS:
-            continue
+        if name in NON_ACCESSORS or m.qualname in getattr(prog, "absorbed", set()):
+            continue        # (a new helper of a mutator is analysed where it is called)
         n += 1
         s = eng.summary(m)
         effs = [e for e in s.effects if e.origin[0] in ("P", "G")]
@@ -64,7 +64,7 @@ def check_masked_reads(ck: Checker, prog: Program, cls: Class, rule: str, obj_na
                   "amplitude": "valid_window_boolean_mask"}
     n = 0
     for name, m in sorted(cls.methods.items()):
-        if name in NON_ACCESSORS or name in exclude:
+        if name in NON_ACCESSORS or name in exclude or m.qualname in getattr(prog, "absorbed", set()):
             continue
         for node in own_nodes(m.node):
             if isinstance(node, ast.Attribute) and node.attr in raw and isinstance(node.ctx, ast.Load):
@@ -165,6 +165,16 @@ def _scalar_is_bool(f: Func, e: ast.AST, depth: int = 0) -> bool:
         return True
     if isinstance(e, ast.NamedExpr):
         return _scalar_is_bool(f, e.value, depth + 1)
+    if isinstance(e, ast.Call) and isinstance(e.func, ast.Name):
+        # a function defined inside this one, every return of which is such an expression (and which cannot fall off its end)
+        local = [d for d in ast.walk(f.node) if isinstance(d, ast.FunctionDef) and d is not f.node and d.name == e.func.id]
+        if len(local) == 1 and not any(isinstance(x, (ast.Yield, ast.YieldFrom)) for x in ast.walk(local[0])):
+            from types import SimpleNamespace
+            g = SimpleNamespace(node=local[0], params=[a.arg for a in local[0].args.args])
+            rets = [r for r in own_nodes(local[0]) if isinstance(r, ast.Return)]
+            last = local[0].body[-1]
+            ends = isinstance(last, (ast.Return, ast.Raise)) or (isinstance(last, ast.If) and last.orelse and all(isinstance(b[-1], (ast.Return, ast.Raise)) for b in (last.body, last.orelse)))
+            return bool(rets) and ends and all(r.value is not None and _scalar_is_bool(g, r.value, depth + 1) for r in rets)
     if isinstance(e, ast.Name):
         defs = [s_ for s_ in own_nodes(f.node) if isinstance(s_, (ast.Assign, ast.AnnAssign, ast.NamedExpr))
                 and any(isinstance(t, ast.Name) and t.id == e.id for t in (s_.targets if isinstance(s_, ast.Assign) else [s_.target]))]
@@ -425,32 +435,46 @@ def _weighted_estimators(ck: Checker, prog: Program, rule: str):
             else:
                 ck.violation(rule, f.qualname, "default denominator", f"default denominator is {unparse(dflt) if dflt else None}, expected 'nist'", loc=f.loc())
 
-    # ---- nth std
+    # ---- nth std: a table over the accepted spellings of the distribution
+    _nth_std_table(ck, prog, rule)
+
+
+def _nth_std_table(ck: Checker, prog: Program, rule: str):
+    """_nth_std_factory under every key of DISTRIBUTION_MAP (and an unknown name): value = mean + n*std for the names of the normal
+    assumption, exp(log(mean) + n*std) for the lognormal ones, anything else refused - whatever the layout (ladder, table of lambdas)."""
+    from ..pathtable import PathTable, outcomes
+    R = lambda n: sp.Symbol(n, real=True)   # noqa: E731
     f = prog.func("statistics._nth_std_factory")
     if f.params[:4] != ["n", "distribution", "mean", "std"]:
         raise AnalysisError(f"{f.qualname}: parameters are {f.params}")
-    DM = R("DISTRIBUTION_MAP")
-    resolved = [sp.Function("get")(DM, dist, NONE), gi(DM, dist), sp.Function("get")(DM, dist)]
-    mean, std, n = R("mean"), R("std"), R("n")
+    mean, std, n, dist = R("mean"), R("std"), R("n"), R("distribution")
     wants = {"normal": mean + n * std, "lognormal": sp.exp(sp.log(mean) + n * std)}
-    leaves = _leaves(prog, f)
-    seen = set()
-    for l in [x for x in leaves if x.exit == "return"]:
-        key = None
-        for k in wants:
-            if any(case(l, sp.Eq(rv, sp.Symbol(f"'{k}'"), evaluate=False)) for rv in resolved):
-                key = k
-        if key is None:
-            ck.violation(rule, f.qualname, "nth std case", f"a value ({l.value}) is returned for a distribution that is neither 'normal' nor 'lognormal' after alias resolution", loc=f.loc())
-            continue
-        seen.add(key)
-        if equal(l.value, wants[key]):
-            ck.ok(rule, f.qualname, f"{key}: {wants[key]}")
-        else:
-            ck.violation(rule, f.qualname, f"nth std ({key})", f"{key}: returns {l.value}; expected {wants[key]}", loc=f.loc())
+    leaves = PathTable(prog, f.module, call_hook=pkg_call_hook(prog, f.module, None), unroll=True).leaves(list(f.node.body))
+    dm = prog.registry("constants", "DISTRIBUTION_MAP")
+    worlds = [(k, v.value) for k, v in dm.items() if isinstance(v, ast.Constant)] + [("<other>", None)]
+    if len(worlds) < 3:
+        raise AnalysisError("DISTRIBUTION_MAP: fewer than two accepted names")
+    problems: Dict[str, str] = {}
+    for key, canon in worlds:
+        rows = outcomes(leaves, {dist: sp.Symbol(f"'{key}'")})
+        if not rows:
+            raise AnalysisError(f"{f.qualname}: no path for the name '{key}'")
+        for r in rows:
+            if canon is None:
+                if r["exit"] != "raise" and not r["failed"]:
+                    problems["nth std case"] = f"a value ({r['value']}) is returned for a distribution that is neither 'normal' nor 'lognormal' after alias resolution"
+                continue
+            if canon not in wants:
+                raise AnalysisError(f"DISTRIBUTION_MAP: canonical name '{canon}' not known")
+            if r["exit"] == "raise" or r["failed"]:
+                problems[f"nth std ({canon})"] = f"{canon} (spelled '{key}'): refused; expected {wants[canon]}"
+            elif r["value"] is None or not equal(r["value"], wants[canon]):
+                problems[f"nth std ({canon})"] = f"{canon} (spelled '{key}'): returns {r['value']}; expected {wants[canon]}"
     for k in wants:
-        if k not in seen:
-            ck.violation(rule, f.qualname, f"nth std ({k})", f"{k}: returns None; expected {wants[k]}", loc=f.loc())
+        if f"nth std ({k})" not in problems:
+            ck.ok(rule, f.qualname, f"{k}: {wants[k]}", detail=f"under every spelling of DISTRIBUTION_MAP that means {k}")
+    for k, v in sorted(problems.items()):
+        ck.violation(rule, f.qualname, k, v, loc=f.loc())
 
 
 def _check_factory_unpack(ck: Checker, rule: str, f: Func, calc: str):
